@@ -47,6 +47,8 @@ CLASS2SIG = {
 def sig_of_issue(cls, what):
     if cls == "derive-unsat":
         return derive_sig(what)
+    if cls == "derive-shape" and what.startswith("ShaderType-on-empty-struct"):
+        return "rustc#encase-derive-on-empty-struct"
     # unresolved-type, unresolved-entry-const, literal-type, derive-shape, ..: never expected on the unchanged tree
     return CLASS2SIG.get(cls, "static#" + cls)
 
